@@ -11,6 +11,7 @@
 #include <stdio.h>
 #include <stdlib.h>
 #include <string.h>
+#include <strings.h>
 #include <stdint.h>
 #include <stdbool.h>
 #include <unistd.h>
@@ -330,6 +331,54 @@ int main (int argc, char **argv)
                 if (WIFEXITED (st)) fprintf (out, "%d %d", WEXITSTATUS (st) / 64, WEXITSTATUS (st) % 64);
                 else fprintf (out, "FAULT abort");
             }
+        } else if (!strcmp (tok[0], "C") && nt == 4) {
+            /* C01 oracle: the decision composed from the PUBLIC per-part validators, written from the
+             * property text (not from private_email.h) */
+            int mode = atoi (tok[1]); bool tld = tok[2][0] == '1';
+            char *p = joined (tok[3], "00", &ls);
+            const char *end = p + ls;
+            int rc, idn = 0;
+            const char *at = NULL;
+            for (const char *q = p; q < end; q++) if (*q == '@') at = q;
+            if (ls == 0) rc = -EEAV_EMAIL_EMPTY;
+            else if (at == NULL || at + 1 == end) rc = -EEAV_DOMAIN_EMPTY;
+            else if (at - p > 64) rc = -EEAV_LPART_TOO_LONG;
+            else {
+                rc = mode == 822 ? is_822_local (p, at) : mode == 5321 ? is_5321_local (p, at)
+                   : mode == 5322 ? is_5322_local (p, at) : is_6531_local (p, at);
+                if (rc == 0) {
+                    const char *d = at + 1;
+                    if (*d != '[') {
+                        if (mode == 6531) rc = is_utf8_domain (&idn, d, end, tld);
+                        else {
+                            rc = is_ascii_domain (d, end);
+                            if (rc == 0 && tld) {
+                                if (is_special_domain (d, end)) rc = TLD_TYPE_SPECIAL;
+                                else {
+                                    const char *dot = strrchr (d, '.');
+                                    rc = dot ? is_tld (dot + 1, end) : -EEAV_DOMAIN_NOT_FQDN;
+                                }
+                            }
+                        }
+                    } else {
+                        const char *close = NULL;
+                        for (const char *q = d; q < end; q++) if (*q == ']') close = q;
+                        if (end - d <= 8) rc = -EEAV_IPADDR_INVALID;
+                        else if (close == NULL) rc = -EEAV_IPADDR_BRACKET_UNPAIR;
+                        else if (close + 1 != end) rc = -EEAV_IPADDR_INVALID;
+                        else {
+                            const char *a = d + 1;
+                            int ok;
+                            if (close - a >= 5 && strncasecmp (a, "IPv6:", 5) == 0) ok = is_ipv6 (a + 5, close);
+                            else if (memchr (a, ':', close - a)) ok = is_ipv6 (a, close);
+                            else ok = is_ipv4 (a, close);
+                            rc = ok ? 0 : -EEAV_IPADDR_INVALID;
+                        }
+                    }
+                }
+            }
+            fprintf (out, "%d %d", rc, rc == -EEAV_IDN_ERROR ? idn : 0);
+            free (p);
         } else if (!strcmp (tok[0], "H") && nt == 2) {
             run_history (out, tok[1]);
         } else {
